@@ -82,7 +82,8 @@ def run_program(prog, seed, policy, base, family="corpus", replay=None):
     # (MODEL_ACC_CHECK=1); a violated equation on a trace the code agrees with is a C02 finding
     acc_lines = [l for l in model if l.startswith(". ACC-VIOLATION")]
     prot_lines = [l for l in model if l.startswith(". PROT-VIOLATION")]
-    model = [l for l in model if not l.startswith(". ACC-VIOLATION") and not l.startswith(". PROT-VIOLATION")]
+    scope_lines = [l for l in model if l.startswith(". SCOPE-OUT")]
+    model = [l for l in model if not l.startswith(". ACC-VIOLATION") and not l.startswith(". PROT-VIOLATION") and not l.startswith(". SCOPE-OUT")]
     open(base + ".model", "w").write(m.stdout.decode())
     if m.returncode != 0:
         res["status"] = "model-failed"
@@ -115,6 +116,12 @@ def run_program(prog, seed, policy, base, family="corpus", replay=None):
         findings = list(findings) + [("C01", "protection invariant of coq/ASModel/ProtDefs.v (a slot holding a value is unconfirmed, or the value is stored, or a writer still walks towards the slot) violated: " + l[2:], None)]
     res["findings"] = findings
     res["metrics"] = metrics
+    # inside the scope of the end-to-end theorems (Main.RunOK)? static part: no set_generation, no cache commands
+    try:
+        ptxt = open(prog).read()
+    except OSError:
+        ptxt = ""
+    res["in_scope"] = (not scope_lines) and ("setgen" not in ptxt) and ("cache" not in ptxt) and os.environ.get("MODEL_SCOPE_CHECK") == "1"
     if d is None:
         res["status"] = "ok"
         if not flags and not findings:
@@ -146,7 +153,7 @@ def run_batch(families, n, seed, workdir, policies=("sticky", "pct", "spurious")
 
 
 def summarize(results):
-    out = {"runs": len(results), "ok": 0, "diverged": [], "failed": [], "flags": [], "steps": 0,
+    out = {"runs": len(results), "in_scope": sum(1 for r in results if r.get("in_scope")), "ok": 0, "diverged": [], "failed": [], "flags": [], "steps": 0,
            "events": 0, "stats": {}, "by_family": {}, "digests": set(), "findings": [], "max_load_steps": 0}
     for r in results:
         fam = out["by_family"].setdefault(r["family"], {"runs": 0, "ok": 0, "steps": 0})
